@@ -87,6 +87,61 @@ def grid_spec(pitches, pid="G"):
 
 
 # ---------------------------------------------------------------------------------------------
+# tie chains whose notes are spelled differently (enharmonic ties: same sounding pitch, other letter)
+
+TIE_MIDI = tuple(range(60, 72))
+TIE_GROUPS = ((60, 61, 62), (63, 64, 65), (66, 67, 68), (69, 70, 71))
+
+
+def spellings(m, lim=2):
+    """every (step, alter, octave) with |alter| <= lim that sounds MIDI pitch m, in diatonic order
+    (e.g. 60 -> B#3, C4, Dbb4)"""
+    out = []
+    for o in range(m // 12 - 3, m // 12 + 2):
+        for s in LETTERS:
+            a = m - midi(s, 0, o)
+            if abs(a) <= lim:
+                out.append((s, a, o))
+    out.sort(key=lambda p: 7 * p[2] + LETTERS.index(p[0]))
+    return out
+
+
+def spelled_chains(length, midis=TIE_MIDI):
+    """all tie chains of `length` notes that sound one of the given MIDI pitches: every sequence (with
+    repetition, so the identically spelled chains are among them) of spellings of that pitch"""
+    import itertools
+
+    out = []
+    for m in midis:
+        out.extend(itertools.product(spellings(m), repeat=length))
+    return out
+
+
+def chain_in_range(chain, number, quality, direction):
+    return all(in_range(p, number, quality, direction) for p in chain)
+
+
+def chains_spec(chains, pid="T"):
+    """One part, one voice: the chains one after the other, one quarter per note, each note tied to the
+    next note of its chain; an alteration of 0 is written None in every third chain. -> (spec, roles)"""
+    objs = []
+    roles = {}
+    t = 0
+    for ci, chain in enumerate(chains):
+        for k, (s, a, o) in enumerate(chain):
+            nid = "t%d_%d" % (ci, k)
+            raw = None if (a == 0 and ci % 3 == 0) else a
+            obj = {"k": "note", "s": t, "e": t + 1, "id": nid, "step": s, "alter": raw, "oct": o, "voice": 1, "staff": 1}
+            if k < len(chain) - 1:
+                obj["tie"] = "t%d_%d" % (ci, k + 1)
+            objs.append(obj)
+            same = all(p == chain[0] for p in chain)
+            roles[nid] = ("tie-head" if k == 0 else "tie-later") + ("" if same else " of an enharmonic tie")
+            t += 1
+    return {"id": pid, "name": "ties", "divs": [[0, 1]], "objs": objs}, roles
+
+
+# ---------------------------------------------------------------------------------------------
 # small parts: slots with ties, chords, graces, rests, unpitched notes
 
 P0 = ("C", None, 4)
